@@ -33,6 +33,20 @@ func genC04(t *rapid.T) CrashCase {
 
 func TestC04(t *testing.T) { ev.Check(t, "C04", "crash", genC04, ExecC04) }
 
+// genC04Bulk: one transaction writes so many keys with long names that its version records exceed what
+// one Badger transaction can hold (about 10 MB); crash points are sampled inside its Commit.
+func genC04Bulk(t *rapid.T) CrashCase {
+	c := Case{Prof: "c04", Roots: 1, MaxDir: 100, Keys: []string{"a", "b"}}
+	n := rapid.SampledFrom([]int{40, 280, 320, 600}).Draw(t, "burstKeys")
+	nameLen := rapid.SampledFrom([]int{40000, 40000, 20000}).Draw(t, "nameLen")
+	c.Ops = []Op{{K: "set", Key: 0, Len: 3}, {K: "begin", Lvl: rapid.SampledFrom([]int{0, 1, 2, 3}).Draw(t, "lvl")},
+		{K: "set", Last: true, Key: 0, Len: 5}, {K: "txburst", Last: true, N: n, Len: nameLen}, {K: "set", Last: true, Key: 1, Len: 7},
+		{K: "commit", Last: true}, {K: "set", Key: 1, Len: 2}}
+	return CrashCase{Case: c, Bulk: true, Sample: rapid.IntRange(6, 10).Draw(t, "sample")}
+}
+
+func TestC04Bulk(t *testing.T) { ev.Check(t, "C04", "bulk", genC04Bulk, ExecC04) }
+
 func genC05(t *rapid.T) Case {
 	c := Case{Prof: "c05", Roots: rapid.IntRange(1, 2).Draw(t, "roots"), MaxDir: 100, Others: rapid.IntRange(0, 2).Draw(t, "others")}
 	c.Keys = GenKeys(t, 2, 3, false)
